@@ -679,4 +679,65 @@ func emitClientAuthn(e *emitter, p *pkg) {
 		}
 	}
 	e.raw("caStatusStoresElsewhere", "Nat", strconv.Itoa(elsewhere), elsewhere)
+	caPremaster(e, p)
+}
+
+// caPremaster: how eccKeyAgreement.generateClientKeyExchange fills the pre-master secret — the
+// buffer `X := make([]byte, N)`, every call that is handed a tail `X[k:]` of it (the random part),
+// and whether X itself is what is encrypted to the server's key and returned.  io.Reader.Read may
+// deliver fewer bytes than asked for: only io.ReadFull draws all N-k bytes from Config.Rand.
+func caPremaster(e *emitter, p *pkg) {
+	fd := p.funcs["eccKeyAgreement.generateClientKeyExchange"]
+	var buf string
+	var size, from int64 = 0, 0
+	okSize, okFrom := false, false
+	fills := []string{}
+	encrypted, returned := false, false
+	if fd != nil && fd.Body != nil {
+		ast.Inspect(fd.Body, func(n ast.Node) bool {
+			switch t := n.(type) {
+			case *ast.AssignStmt:
+				if buf == "" && len(t.Lhs) == 1 && len(t.Rhs) == 1 {
+					if call, ok := t.Rhs[0].(*ast.CallExpr); ok && p.src(call.Fun) == "make" && len(call.Args) == 2 && p.src(call.Args[0]) == "[]byte" {
+						if id, ok := t.Lhs[0].(*ast.Ident); ok {
+							if v, err := strconv.ParseInt(p.src(call.Args[1]), 0, 64); err == nil {
+								buf, size, okSize = id.Name, v, true
+							}
+						}
+					}
+				}
+			case *ast.CallExpr:
+				if buf == "" {
+					return true
+				}
+				for _, a := range t.Args {
+					if sl, ok := a.(*ast.SliceExpr); ok && p.src(sl.X) == buf && sl.Low != nil && sl.High == nil {
+						kind := "other:" + p.src(t.Fun)
+						if p.src(t.Fun) == "io.ReadFull" && len(t.Args) == 2 && p.src(t.Args[0]) == "config.rand()" {
+							kind = "readfull"
+						} else if sel, ok := t.Fun.(*ast.SelectorExpr); ok && sel.Sel.Name == "Read" && len(t.Args) == 1 {
+							kind = "read"
+						}
+						fills = append(fills, kind)
+						if v, err := strconv.ParseInt(p.src(sl.Low), 0, 64); err == nil && !okFrom {
+							from, okFrom = v, true
+						}
+					}
+				}
+				if p.src(t.Fun) == "sm2.Encrypt" && len(t.Args) >= 3 && p.src(t.Args[2]) == buf {
+					encrypted = true
+				}
+			case *ast.ReturnStmt:
+				if buf != "" && len(t.Results) == 3 && p.src(t.Results[0]) == buf {
+					returned = true
+				}
+			}
+			return true
+		})
+	}
+	e.nat("caPremasterLen", size, okSize)
+	e.nat("caPremasterRandFrom", from, okFrom)
+	e.strList("caPremasterFills", fills)
+	e.boolean("caPremasterReadFull", len(fills) == 1 && fills[0] == "readfull")
+	e.boolean("caPremasterEncryptedAndReturned", encrypted && returned)
 }
